@@ -753,7 +753,22 @@ func (g *VCGen) loopBackEdge(from, h *ssa.BasicBlock) {
 }
 
 func (g *VCGen) immutableHeap(h string) bool {
-	return g.eng.immHeaps[h]
+	if g.eng.immHeaps[h] {
+		return true
+	}
+	if !g.immTypesDone {
+		g.immTypesDone = true
+		for _, al := range g.eng.contracts.ImmHeapTypes {
+			gt := g.eng.evalGoType(al)
+			if sl, ok := gt.Underlying().(*types.Slice); ok {
+				g.eng.immHeaps[g.so.sliceHeapFor(sl.Elem())] = true
+			} else {
+				g.eng.immHeaps[g.so.heapFor(gt)] = true
+			}
+		}
+		return g.eng.immHeaps[h]
+	}
+	return false
 }
 
 // ---------------------------------------------------------------- instructions
